@@ -16,6 +16,8 @@ import SpsdkVerif.Model.Mboot
 import SpsdkVerif.Generated.MbootConsts
 import SpsdkVerif.Proofs.Mboot
 import SpsdkVerif.Proofs.MbootFault
+import SpsdkVerif.Proofs.MbootRefine
+import SpsdkVerif.Proofs.MbootBound
 import SpsdkVerif.Model.Sdp
 import SpsdkVerif.Generated.SdpConsts
 import SpsdkVerif.Proofs.Sdp
@@ -114,9 +116,11 @@ theorem gen_crc_params_agree :
     Generated.MbootConsts.crcPoly = Spec.crcPoly ∧ Generated.MbootConsts.crcInit = 0 ∧
     Generated.MbootConsts.crcXorOut = 0 ∧ Generated.MbootConsts.crcReverse = false := by decide
 
-/-- `_clamp_down_memory_id`: `if memory_id > 255 or memory_id == 0: return memory_id … return 0` -/
+/-- `_clamp_down_memory_id`, evaluated from the source on 0..300 and some large ids, is the model's `clampMemId`
+    (a semantic table: a harmless rewrite of the function keeps it, a changed boundary breaks it) -/
 theorem gen_clamp_agrees :
-    Generated.MbootConsts.clampDownShape = [("Return", 0), ("Gt", 255), ("Eq", 0)] := by decide
+    Generated.MbootConsts.clampDownTable.length = 306 ∧
+    Generated.MbootConsts.clampDownTable.all (fun q => clampMemId q.1 == q.2) = true := by decide +kernel
 
 /-! ## 2. codecs -/
 
@@ -293,7 +297,99 @@ theorem nak_abort_raise (h : Host) (p : CmdPkt) (x : Bytes) (hwf : p.WF) (ho : h
     ((h.write (mkFrame Spec.fCmd p.encode)).rxB = abortFrame ++ x → (processCmd p h).1 = .error .abort) :=
   processCmd_nak_abort h p x hwf ho htr
 
--- (section 6, no-fault refinement, is re-inserted once Proofs/MbootRefine.lean is rebuilt for the extended model)
+/-! ## 6. without faults: host + reference bootloader = the specification
+
+`specOp` (Model/Mboot.lean) is the abstract effect of an operation: written bytes are in the device memory once, in
+order (`splice`), nothing else is touched; read bytes are exactly `mem[a, a+n)`; properties and status codes are the
+device's; an operation the device refuses returns `False`/`None` (or raises `McuBootCommandError(status)` with
+`cmd_exception`) and shows the device's status.  The device refuses data packets larger than its max packet size, so the
+refinement also says that every packet the host sends is no larger than the negotiated size.
+Covered: get/set property, fill, erase region/all, read_memory (un-chunked and the UsbDevice chunk loop), write_memory,
+receive_sb_file, execute/call/erase-all-unsecure/configure-memory/reliable-update, key provisioning (enroll, intrinsic key,
+(non)volatile, set user key, write/read key store), flash_read_resource, flash/efuse read once, flash_program_once,
+efuse_program_once with and without verification (locked word ⇒ OTP_VERIFY_FAIL), load_image. -/
+
+/-- one operation on the CRC-framed serial link (all data lengths, all packet sizes `0 < mp < 2^16`) -/
+theorem op_refines_serial (h : Host) (d d' : Dev) (op : Op) (res : Except HErr Val) (st : Nat)
+    (htr : h.cfg.tr = .serial)
+    (hs : Synced h d) (hd : d.OK) (hmps : h.mps = some d.maxPacket) (heda : h.eda = false)
+    (hargs : op.argsOK) (hspec : specOp h.cfg.cmdExc h.cfg.usb d op = some (d', res, st)) :
+    ∃ h', runOp op h = (res, h') ∧ Synced h' d' ∧ h'.status = st ∧ h'.cfg = h.cfg ∧ h'.mps = h.mps ∧ h'.eda = false :=
+  Mboot.op_refines_serial h d d' op res st htr hs hd hmps heda hargs hspec
+
+/-- one operation over USB-HID reports (`cfg.usb`: the device object is a `UsbDevice`, then `read_memory` takes the chunked path) -/
+theorem op_refines_hid (h : Host) (d d' : Dev) (op : Op) (res : Except HErr Val) (st : Nat)
+    (htr : h.cfg.tr = .hid)
+    (hs : Synced h d) (hd : d.OK) (hmps : h.mps = some d.maxPacket) (heda : h.eda = false)
+    (hargs : op.argsOK) (hspec : specOp h.cfg.cmdExc h.cfg.usb d op = some (d', res, st)) :
+    ∃ h', runOp op h = (res, h') ∧ Synced h' d' ∧ h'.status = st ∧ h'.cfg = h.cfg ∧ h'.mps = h.mps ∧ h'.eda = false :=
+  Mboot.op_refines_hid h d d' op res st htr hs hd hmps heda hargs hspec
+
+/-- run a list of operations; result and `status_code` after each one -/
+def runOps : List Op → Host → List (Except HErr Val × Nat) × Host
+  | [], h => ([], h)
+  | op :: ops, h =>
+    let x := runOp op h
+    let y := runOps ops x.2
+    ((x.1, x.2.status) :: y.1, y.2)
+
+/-- the abstract specification of a list of operations on the device -/
+def specOps (ce usb : Bool) : List Op → Dev → Option (List (Except HErr Val × Nat) × Dev)
+  | [], d => some ([], d)
+  | op :: ops, d =>
+    match specOp ce usb d op with
+    | none => none
+    | some (d1, r, st) =>
+      match specOps ce usb ops d1 with
+      | none => none
+      | some (rs, d2) => some ((r, st) :: rs, d2)
+
+/-- `no_fault_refines`: any sequence of (covered) operations, both transports, by induction over the history -/
+theorem no_fault_refines (ops : List Op) (h : Host) (d d' : Dev) (rs : List (Except HErr Val × Nat))
+    (hs : Synced h d) (hd : d.OK) (hmps : h.mps = some d.maxPacket) (heda : h.eda = false)
+    (hargs : ∀ op ∈ ops, op.argsOK) (hspec : specOps h.cfg.cmdExc h.cfg.usb ops d = some (rs, d')) :
+    ∃ h', runOps ops h = (rs, h') ∧ Synced h' d' := by
+  induction ops generalizing h d rs with
+  | nil =>
+    simp only [specOps, Option.some.injEq, Prod.mk.injEq] at hspec
+    obtain ⟨rfl, rfl⟩ := hspec
+    exact ⟨h, rfl, hs⟩
+  | cons op ops ih =>
+    simp only [specOps] at hspec
+    cases h1 : specOp h.cfg.cmdExc h.cfg.usb d op with
+    | none => simp [h1] at hspec
+    | some t =>
+      obtain ⟨d1, r, st⟩ := t
+      simp only [h1] at hspec
+      cases h2 : specOps h.cfg.cmdExc h.cfg.usb ops d1 with
+      | none => simp [h2] at hspec
+      | some u =>
+        obtain ⟨rs2, d2⟩ := u
+        simp only [h2, Option.some.injEq, Prod.mk.injEq] at hspec
+        obtain ⟨rfl, rfl⟩ := hspec
+        have hop : op.argsOK := hargs op (by simp)
+        obtain ⟨ok1, mp1, _⟩ := specOp_OK h.cfg.cmdExc h.cfg.usb d d1 op r st hd hs.idle hop h1
+        have step : ∃ h', runOp op h = (r, h') ∧ Synced h' d1 ∧ h'.status = st ∧ h'.cfg = h.cfg ∧ h'.mps = h.mps ∧
+            h'.eda = false := by
+          cases htr : h.cfg.tr with
+          | serial => exact Mboot.op_refines_serial h d d1 op r st htr hs hd hmps heda hop h1
+          | hid => exact Mboot.op_refines_hid h d d1 op r st htr hs hd hmps heda hop h1
+        obtain ⟨h', e1, s1, st1, c1, m1, ed1⟩ := step
+        have := ih h' d1 rs2 s1 ok1 (by rw [m1, hmps, mp1]) ed1
+          (fun o ho => hargs o (by simp [ho])) (by rw [c1]; exact h2)
+        obtain ⟨h'', e2, s2⟩ := this
+        refine ⟨h'', ?_, s2⟩
+        simp only [runOps, e1, e2, st1]
+
+/-! ## 6b. bounded time -/
+
+/-- `bounded`: on ANY replayed stream (well-formed or garbage, both transports, strict or partial reads) an operation
+    makes at most `pending + dataLen + 16` calls of `device.read`, where `pending` is what the stream can deliver and
+    `dataLen` the number of bytes of the host→device data phase: there is no unbounded retry loop (the 0x00 "not ready"
+    skipping consumes the stream; the number of failed reads is at most the number of data packets plus a constant). -/
+theorem reads_bounded (h : Host) (op : Op) (hpeer : (∃ cs, h.peer = .script cs) ∨ h.peer = .none) :
+    (runOp op h).2.reads ≤ h.reads + h.pending + op.dataLen + 16 :=
+  Bound.reads_bounded h op hpeer
 
 /-! ## 7. SDP over the serial protocol (thin layer; Model/Sdp.lean) -/
 
@@ -341,6 +437,15 @@ theorem sdp_read_data_complete (length : Nat) (d : Bytes) (h h' : Sdp.Host)
   Sdp.readDataLoop_length length (length + h.rxR.length + h.fuelHint + 1) [] d h h' hr
 
 /-! ## non-vacuity and sanity examples -/
+
+/-- a concrete device / host pair satisfying every hypothesis of the refinement theorems, and a history on it -/
+def exDev : Dev := { mem := [1, 2, 3, 4, 5, 6, 7, 8, 9, 10], maxPacket := 4, props := [(1, 77)], rwProps := [10] }
+def exHost : Host := { mps := some 4, peer := .live exDev }
+example : Synced exHost exDev := ⟨rfl, rfl, rfl, rfl, rfl⟩
+example : exDev.OK := ⟨by decide, by decide, by decide, rfl, by decide, by decide, rfl, by decide⟩
+example : specOps false false [.writeMemory 2 [9, 9, 9, 9, 9] 0, .readMemory 0 10 0 false, .readMemory 8 3 0 false] exDev =
+    some ([(.ok (.bool true), 0), (.ok (.bytes [1, 2, 9, 9, 9, 9, 9, 8, 9, 10]), 0), (.ok .none, 10200)],
+          { exDev with mem := [1, 2, 9, 9, 9, 9, 9, 8, 9, 10], ncmd := 3 }) := by decide +kernel
 
 example : crc16 [0x31, 0x32, 0x33, 0x34, 0x35, 0x36, 0x37, 0x38, 0x39] = 0x31C3 := by decide +kernel
 -- the ping response of the bootloader reference manual
